@@ -27,7 +27,6 @@ from jax2onnx.plugins.jax.numpy._common import (
 from jax2onnx.plugins.jax._batching_utils import broadcast_batcher_compat
 from jax2onnx.plugins.plugin_system import PrimitiveLeafPlugin, register_primitive
 
-
 _EQUAL_PRIM: Final = make_jnp_primitive("jax.numpy.equal")
 
 
@@ -110,7 +109,9 @@ class JnpEqualPlugin(PrimitiveLeafPlugin):
         rhs_dtype: np.dtype[Any] = np.dtype(
             getattr(getattr(rhs_var, "aval", None), "dtype", np.float32)
         )
-        target_dtype = np.promote_types(lhs_dtype, rhs_dtype)
+        target_dtype = np.dtype(
+            jnp.promote_types(lhs_dtype, rhs_dtype)
+        )  # JAX's promotion lattice (int32 with float32 is float32), not NumPy's
         target_ir = _dtype_to_ir(target_dtype, ctx.builder.enable_double_precision)
 
         lhs_cmp = lhs_val
